@@ -2,6 +2,7 @@ import Model.Placement
 import Proofs.C10Lookup
 import Proofs.C10Simple
 import Proofs.C10Nts
+import Proofs.C10NtsNodup
 /-!
 # C10 — replica sets for a token equal Cassandra's placement  (property theorems)
 
@@ -11,7 +12,7 @@ All theorems quantify over every ring / replication setting / token; the only st
 `Sorted` (strictly ascending tokens: what `sort.Sort` produces from pairwise distinct tokens).
 -/
 namespace C10
-open Placement C10Lookup C10Simple C10Nts
+open Placement C10Lookup C10Simple C10Nts C10NtsNodup
 
 /-! ## ring lookup -/
 
@@ -220,5 +221,54 @@ theorem C10_cex_nts_dup :
 theorem C10_cex_nts_dup_spec :
     Spec.nts [(0, ⟨1, 1, 1⟩), (5, ⟨1, 1, 1⟩), (10, ⟨2, 1, 1⟩), (20, ⟨3, 1, 1⟩)] [(1, 2)] 0
       = [⟨1, 1, 1⟩, ⟨2, 1, 1⟩] := by decide
+
+/-! ## NetworkTopologyStrategy — what holds only without vnodes on the unchanged code -/
+
+/-- hypothesis excluding the recorded defect D1: every node owns exactly one ring token -/
+def OneTokenPerNode (tokens : List Entry) : Prop := (tokens.map (·.2)).Nodup
+
+theorem nts_entry_j (rfs : List (Nat × Nat)) (hosts : List Host) (tokens : List Entry)
+    (h1 : OneTokenPerNode tokens) (i : Nat) :
+    J (rot (tokens.map (·.2)) i) (ntsReplicasAt (mkCfg rfs hosts) tokens i) := by
+  have hr : (rot tokens i).map (·.2) = rot (tokens.map (·.2)) i := by simp [rot]
+  unfold ntsReplicasAt
+  rw [hr]
+  have := j_walk (mkCfg rfs hosts) (rot (tokens.map (·.2)) i) [] ntsInit
+    (by simpa using rot_nodup _ i h1) (good_init _) j_init
+  simpa using this
+
+/-- FULL statement (false for the unchanged code, see `C10_cex_nts_dup`):
+      ∀ rfs hosts tokens, ∀ e ∈ ntsDesc rfs hosts tokens, e.2.Nodup.
+`_partial`: with one token per node no replica list contains a node twice. -/
+theorem C10_nts_nodup_partial (rfs : List (Nat × Nat)) (hosts : List Host) (tokens : List Entry)
+    (h1 : OneTokenPerNode tokens) (e : Int × List Host) (he : e ∈ ntsDesc rfs hosts tokens) : e.2.Nodup := by
+  unfold ntsDesc at he
+  obtain ⟨p, _, rfl⟩ := List.mem_map.mp he
+  exact (nts_entry_j rfs hosts tokens h1 p.1).rnd
+
+/-- `_partial` (one token per node): per datacenter a replica list holds at most min(rf, nodes of the DC) nodes.
+(The rf half holds for every ring: `C10_nts_bound_rf`; the node-count half fails with vnodes: [A, A].) -/
+theorem C10_nts_bound_partial (rfs : List (Nat × Nat)) (hosts : List Host) (tokens : List Entry)
+    (hh : ∀ e ∈ tokens, e.2 ∈ hosts) (h1 : OneTokenPerNode tokens)
+    (e : Int × List Host) (he : e ∈ ntsDesc rfs hosts tokens) (d : Nat) :
+    (e.2.filter (fun x => decide (x.dc = d))).length ≤
+      min (rfOf rfs d) (((tokens.map (·.2)).filter (fun x => decide (x.dc = d))).length) := by
+  have hb := C10_nts_bound_rf rfs hosts tokens hh e he d
+  have hnd := C10_nts_nodup_partial rfs hosts tokens h1 e he
+  unfold ntsDesc at he
+  obtain ⟨p, _, rfl⟩ := List.mem_map.mp he
+  have j := nts_entry_j rfs hosts tokens h1 p.1
+  have := nodup_subset_length_le
+    ((ntsReplicasAt (mkCfg rfs hosts) tokens p.1).replicas.filter (fun x => decide (x.dc = d)))
+    ((tokens.map (·.2)).filter (fun x => decide (x.dc = d)))
+    (List.Sublist.nodup List.filter_sublist hnd)
+    (by
+      intro x hx
+      rw [List.mem_filter] at hx ⊢
+      exact ⟨(mem_rot _ _ x).mp (j.rp x hx.1), hx.2⟩)
+  exact Nat.le_min.mpr ⟨hb, this⟩
+
+example : OneTokenPerNode [(0, ⟨1, 1, 1⟩), (10, ⟨2, 1, 2⟩), (20, ⟨3, 2, 1⟩)] := by
+  unfold OneTokenPerNode; decide
 
 end C10
